@@ -760,6 +760,7 @@ struct TypedRunner<'c, 'a> {
     infinite_float: bool,
     lone_absent_item: bool,
     empty_attr_vec: bool,
+    attr_single_slot: bool,
 }
 
 impl<'c, 'a> TypedRunner<'c, 'a> {
@@ -770,6 +771,8 @@ impl<'c, 'a> TypedRunner<'c, 'a> {
             ":lone_absent_item"
         } else if self.empty_attr_vec {
             ":empty_attr_vec"
+        } else if self.attr_single_slot {
+            ":attr_single_slot"
         } else {
             ""
         }
@@ -787,6 +790,10 @@ impl<'c, 'a> TypedVisitor for TypedRunner<'c, 'a> {
 
     fn note_empty_attr_vec(&mut self, present: bool) {
         self.empty_attr_vec = present;
+    }
+
+    fn note_attr_single_slot(&mut self, present: bool) {
+        self.attr_single_slot = present;
     }
 
     fn visit<T>(&mut self, type_name: &'static str, value: T, eq: fn(&T, &T) -> bool)
@@ -1020,7 +1027,7 @@ fn run_case(ctx: &mut Ctx<'_>, case: &Case) {
         Body::Typed(tv) => {
             ctx.rec("case", &format!("#{} typed {}", case.id, tv.type_name()));
             ctx.count("cases_typed", 1);
-            let mut runner = TypedRunner { ctx, case, infinite_float: false, lone_absent_item: false, empty_attr_vec: false };
+            let mut runner = TypedRunner { ctx, case, infinite_float: false, lone_absent_item: false, empty_attr_vec: false, attr_single_slot: false };
             tv.dispatch(&mut runner);
         }
         Body::Model(vj) => {
